@@ -2034,10 +2034,7 @@ class Graph:
             pulse.sources = [names[s] if s in names else s for s in pulse.sources]
             if pulse.dest in names:
                 pulse.dest = names[pulse.dest]
-        for k, deme in list(graph._deme_map.items()):
-            if k in names:
-                del graph._deme_map[k]
-                graph._deme_map[names[k]] = deme
+        graph._deme_map = {deme.name: deme for deme in graph.demes}
         return graph
 
     @classmethod
